@@ -526,6 +526,9 @@ func runBounded(o *Options, sp *Specs, P string, keys []string, known []KnownFin
 	for _, key := range keys {
 		fc := sp.Funcs[key]
 		for _, bd := range fc.Bounded {
+			if len(bd.Props) > 0 && !hasProp(bd.Props, P) {
+				continue
+			}
 			name := key + "#bounded:" + bd.Test
 			t0 := time.Now()
 			timeout := "300s"
